@@ -304,3 +304,92 @@ def c_soft_priority(c, shape, k):
             else:
                 ok = ok and isinstance(t, ExprUnaryModel) and t.expr is g
         c.prove("the guard is exactly the conjunction of the enclosing conditions (else branches negated)", ok)
+
+
+# ---- C01-S: rand-set formation ----------------------------------------------------------------------------------------
+def rs_cases(tier, seed):
+    fields = ["a", "b", "c", "n"]
+    stmts = [(x,) for x in fields] + [(x, y) for x in fields for y in fields if x != y]
+    seqs = []
+    for k in (1, 2, 3):
+        for sq in itertools.product(range(len(stmts)), repeat=k):
+            seqs.append([stmts[i] for i in sq])
+    if tier != "thorough":
+        import random
+        r = random.Random(seed)
+        three = [s for s in seqs if len(s) == 3]
+        seqs = [s for s in seqs if len(s) < 3] + r.sample(three, 700)
+    else:
+        import random
+        r = random.Random(seed)
+        for _ in range(1500):
+            seqs.append([stmts[r.randrange(len(stmts))] for _ in range(4)])
+    return [(seqs[i:i + 60],) for i in range(0, len(seqs), 60)]
+
+
+@contract("rand_info_builder.rand_sets", ["C01", "C02", "C03"],
+          ["vsc.model.rand_info_builder.RandInfoBuilder.build", "vsc.model.rand_info_builder.RandInfoBuilder.process_fieldref",
+           "vsc.model.rand_info_builder.RandInfoBuilder.visit_constraint_stmt_enter",
+           "vsc.model.rand_info_builder.RandInfoBuilder.visit_constraint_stmt_leave", "vsc.model.rand_set.RandSet.add_field",
+           "vsc.model.rand_set.RandSet.add_constraint", "vsc.model.rand_set_node_builder.RandSetNodeBuilder.build"],
+          rs_cases, kind="bounded", replay="none",
+          bound="statement sequences over 3 random fields and 1 non-random field: every sequence of 1..2 statements, 700 seeded "
+                "sequences of 3 (thorough: all 4096 of length 3 plus 1500 of length 4); a statement mentions one field or an ordered "
+                "pair of fields (operand order matters for set merging); no values involved")
+def c_rand_sets(c, seqs):
+    from vsc.model.field_composite_model import FieldCompositeModel
+    from vsc.model.field_scalar_model import FieldScalarModel
+    from vsc.model.constraint_block_model import ConstraintBlockModel
+    from vsc.model.constraint_expr_model import ConstraintExprModel
+    from vsc.model.expr_bin_model import ExprBinModel
+    from vsc.model.expr_fieldref_model import ExprFieldRefModel
+    from vsc.model.expr_literal_model import ExprLiteralModel
+    from vsc.model.bin_expr_type import BinExprType
+    from vsc.model.rand_info_builder import RandInfoBuilder
+    from vsc.model.rand_set_node_builder import RandSetNodeBuilder
+    from pyvc.ghost_btor import GhostBoolector
+    for seq in seqs:
+        root = FieldCompositeModel("o", True)
+        F = {}
+        for nm in ("a", "b", "c"):
+            F[nm] = root.add_field(FieldScalarModel(nm, 4, False, True))
+        F["n"] = root.add_field(FieldScalarModel("n", 4, False, False))
+        sts = []
+        for refs in seq:
+            if len(refs) == 1:
+                e = ExprBinModel(ExprFieldRefModel(F[refs[0]]), BinExprType.Lt, ExprLiteralModel(9, False, 4))
+            else:
+                e = ExprBinModel(ExprFieldRefModel(F[refs[0]]), BinExprType.Le, ExprFieldRefModel(F[refs[1]]))
+            sts.append(ConstraintExprModel(e))
+        root.add_constraint(ConstraintBlockModel("c", sts))
+        root.set_used_rand(True, 0)
+        tag = repr(seq)
+        try:
+            ri = RandInfoBuilder.build([root], [], None)
+        except Exception as e:
+            c.check("rand-set formation raises nothing", False, info="%s %s: %s" % (tag, type(e).__name__, e))
+            continue
+        sets = ri.randsets()
+        ok1 = all(sum(1 for rs in sets if any(x is st for x in rs.constraints())) == 1 for st in sts)
+        c.check("every top-level statement is in exactly one rand set", ok1, info=tag)
+        ok2 = True
+        for st, refs in zip(sts, seq):
+            for rs in sets:
+                if any(x is st for x in rs.constraints()):
+                    ok2 = ok2 and all(F[r] in rs.all_fields() for r in refs)
+        c.check("that set contains every field the statement mentions (random or not)", ok2, info=tag)
+        allf = [f for rs in sets for f in rs.all_fields()]
+        c.check("no field belongs to two rand sets", len(allf) == len(set(allf)), info=tag)
+        mentioned = {F[r] for refs in seq for r in refs}
+        c.check("fields no statement mentions are unconstrained, exactly once; mentioned fields are not",
+                sorted(f.name for f in ri.unconstrained()) == sorted(f.name for f in F.values() if f not in mentioned), info=tag)
+        c.check("only used-random fields are solve targets", all(f.is_used_rand for rs in sets for f in rs.rand_fields())
+                and all((f in rs.rand_fields()) == f.is_used_rand for rs in sets for f in rs.all_fields()), info=tag)
+        # every field of a set is built before any constraint of it is (RandSetNodeBuilder)
+        for rs in sets:
+            bt = GhostBoolector()
+            RandSetNodeBuilder(bt).build(rs)
+            c.check("every field of a rand set has its solver node after the node builder ran", all(f.var is not None for f in rs.all_fields()),
+                    info=tag)
+            for f in rs.all_fields():
+                f.dispose()
